@@ -11,15 +11,28 @@ metainfo unchanged; faithful candidate reachable => accepted.  After acceptance 
 `validate()` must pass and the real `verify(path)` must succeed when the candidate is faithful.
 
 A scenario = local content tree (>= 3 files of >= 5 pieces each, files not starting at piece
-boundaries; or a single file) + a set of `.torrent` files laid out in a search tree + the shape of
-the search path argument + what happens to the local content after the torrent object was made.
-The harness abstracts the search tree into the ordered item list itself (its own directory walk
-with os.listdir order), computes what is locally readable for every candidate geometry itself
-(own chunking + hashlib), and writes the candidate files with its own bencoder.
+boundaries; clusters of many tiny files inside one piece; or a single file) + a set of `.torrent`
+files laid out in a search tree with symbolic links and permissions + the *spelling* and kind of the
+search path argument (absolute / relative to a working directory, `.`, `..`, doubled and trailing
+slashes, through links, str / pathlib / list / tuple / generator) + what happens to the local content
+after the torrent object was made.
+
+Three parties per case: the implementation I; the Lean model M, which since round 3 includes
+`find_torrent_files` over an abstract file system (inode table scanned from the real tree with
+lstat/readlink/listdir) whose path resolution is the operating system's (`Model/ReuseSearch.lean`);
+and the harness's own walk S over the real file system with the spellings as given (os.path.* /
+os.listdir in the same working directory and with the same effective uid).  M's yielded items must
+equal S's (else machinery error: the model of path resolution is wrong), I is judged against S
+(completeness, soundness, atomicity, reported paths) and compared with M (result, metainfo, trace).
+The harness computes what is locally readable for every candidate geometry itself (own chunking +
+hashlib), and writes the candidate files with its own bencoder.
 """
+import contextlib
 import hashlib
 import json
 import os
+import pathlib
+import random
 import shutil
 
 from harness import common
@@ -28,7 +41,11 @@ K = 16384
 MATCHERS = {}
 MAXSZ = int(10e6)
 
-RULE = ('scenario = (content layout, candidate set in a search tree, search path shape, local damage, '
+NOBODY = 65534
+FUEL = 200
+
+RULE = ('scenario = (content layout incl. clusters of > 11 tiny files per piece, candidate set in a search tree with '
+        'symlinks/permissions, spelling and kind of the search path argument, working directory, local damage, '
         'torrent piece-size bounds) x callback (none | passive interval 0 | passive huge interval | cancelling at '
         'each call of the passive trace); candidate kinds: faithful, renamed, size +-1, file missing/extra, one '
         'differing piece at every piece position, piece length out of bounds, permuted file order, other piece '
@@ -129,8 +146,15 @@ def local_pieces(content_root, single, cand_model):
 
 
 def build(wd, sc):
-    """create content + search tree; returns (content path, search argument, plan of torrent files)"""
+    """create content + search tree (torrent files, extra directories, symbolic links, permissions);
+    returns (content path, root, search root, plan: inode number of a written file → what it holds)"""
     root = os.path.join(wd, 's')
+    if os.path.isdir(root):
+        for dp, dns, _ in os.walk(root):         # directories may have been made inaccessible
+            for dn in dns:
+                q = os.path.join(dp, dn)
+                if not os.path.islink(q):
+                    os.chmod(q, 0o755)
     shutil.rmtree(root, ignore_errors=True)
     os.makedirs(root)
     cpath = os.path.join(root, 'content', sc['name'])
@@ -144,66 +168,179 @@ def build(wd, sc):
             os.makedirs(os.path.dirname(p), exist_ok=True)
             with open(p, 'wb') as f:
                 f.write(fbytes(sc['cseed'], key, size))
+        for comps in sc.get('extra_empty', []):      # zero-length neighbours (torf does not list them)
+            p = os.path.join(cpath, *comps)
+            os.makedirs(os.path.dirname(p), exist_ok=True)
+            open(p, 'wb').close()
     sroot = os.path.join(root, 'search')
     os.makedirs(sroot)
-    plan = {}          # absolute path of torrent file → ('torrent', model) | ('unreadable',) | …
+    plan = {}          # st_ino of a written file → ('torrent', model) | ('undecodable',) | ('invalid',)
+    for d in sc.get('dirs', []):
+        os.makedirs(os.path.join(sroot, *d), exist_ok=True)
     for tf in sc['tfiles']:
         p = os.path.join(sroot, *tf['at'])
         os.makedirs(os.path.dirname(p), exist_ok=True)
         k = tf['kind']
-        if k == 'torrent':
+        entry = None
+        if k in ('torrent', 'ignored'):
             info, model = cand_meta(sc, tf['cand'])
             with open(p, 'wb') as f:
                 f.write(benc({'info': info, 'created by': 'harness'}))
-            plan[p] = ('torrent', model)
+            entry = ('torrent', model)
         elif k == 'undecodable':
             with open(p, 'wb') as f:
                 f.write(b'this is not bencoded')
-            plan[p] = ('undecodable',)
+            entry = ('undecodable',)
         elif k == 'invalid':
             info, model = cand_meta(sc, tf['cand'])
             info.pop('pieces') if tf.get('how', 0) == 0 else info.update({'piece length': 1000})
             with open(p, 'wb') as f:
                 f.write(benc({'info': info}))
-            plan[p] = ('invalid',)
+            entry = ('invalid',)
         elif k == 'unreadable':
             os.symlink(os.path.join(root, 'nowhere'), p)
-            plan[p] = ('unreadable',)
         elif k == 'oversized':
             info, model = cand_meta(sc, tf['cand'])
             with open(p, 'wb') as f:
                 f.write(benc({'info': info, 'comment': 'x'}))
                 f.truncate(MAXSZ + 1)
-            plan[p] = ('skipped',)
-        elif k == 'ignored':
-            info, model = cand_meta(sc, tf['cand'])
-            with open(p, 'wb') as f:
-                f.write(benc({'info': info}))
-            plan[p] = ('skipped',)
+            entry = ('undecodable',)
         elif k == 'emptydir':
             os.makedirs(p, exist_ok=True)
-    arg = [os.path.join(sroot, *a) for a in sc['search']]
-    return cpath, (arg[0] if sc.get('scalar_arg') and len(arg) == 1 else arg), plan
+        if entry is not None:
+            plan[os.lstat(p).st_ino] = entry
+    for ln in sc.get('links', []):
+        p = os.path.join(sroot, *ln['at'])
+        os.makedirs(os.path.dirname(p), exist_ok=True)
+        os.symlink(ln['to'].replace('{S}', sroot).replace('{R}', root), p)
+    for pm in sc.get('perms', []):
+        os.chmod(os.path.join(sroot, *pm['at']), pm['mode'])
+    return cpath, root, sroot, plan
 
 
-def walk_items(paths, plan):
-    """the harness's own statement of what the search must visit, in os.listdir order"""
+def scan_fs(root, euid, plan):
+    """the abstract file system handed to the model: inode table (0 = '/', then the chain of real
+    directories down to `root`, then everything below `root`), read with lstat / readlink / listdir on
+    real directories only (nothing is resolved here); permissions as they apply to `euid`.
+    Returns (nodes, contents: per content id what the file holds, cid of inode number)"""
+    nodes, contents, cid_of = [], [], {}
+
+    def flags(st):
+        if euid == 0:
+            return True, True
+        assert (st.st_mode >> 3) & 7 == st.st_mode & 7, 'group and other bits must agree'
+        return bool(st.st_mode & 4), bool(st.st_mode & 1)
+
+    def add(p):
+        st = os.lstat(p)
+        i = len(nodes)
+        nodes.append(None)
+        if os.path.islink(p):
+            nodes[i] = {'k': 'l', 't': os.readlink(p)}
+        elif os.path.isdir(p):
+            r, x = flags(st)
+            nodes[i] = {'k': 'd', 'r': r, 'x': x, 'e': [[n, add(p + '/' + n)] for n in os.listdir(p)]}
+        else:
+            if st.st_ino not in cid_of:
+                cid_of[st.st_ino] = len(contents)
+                contents.append(plan.get(st.st_ino, ('undecodable',)))
+            nodes[i] = {'k': 'f', 'size': st.st_size, 'r': flags(st)[0], 'c': cid_of[st.st_ino]}
+        return i
+    spine = [c for c in os.path.realpath(root).split('/') if c]
+    for c in spine:
+        nodes.append({'k': 'd', 'r': True, 'x': True, 'e': [[c, len(nodes) + 1]]})
+    assert add(os.path.realpath(root)) == len(spine)
+    return nodes, contents, cid_of
+
+
+def gen_spellings(rng, root, sroot, cwd_abs, n):
+    """guided random spellings: walk the real tree from the search root (absolute) or the working
+    directory (relative) over listed names, `..`, `.`, empty components and names that do not exist;
+    never leaves `root` (the part of the world the model is told about)"""
+    out = []
+    rroot = os.path.realpath(root)
+    for _ in range(n):
+        absolute = cwd_abs is None or rng.random() < 0.5
+        base = (sroot if rng.random() < 0.85 else root) if absolute else cwd_abs
+        parts = []
+        for _step in range(rng.choice([0, 1, 1, 2, 2, 3, 4, 6])):
+            here = os.path.join(base, *parts) if parts else base
+            if not os.path.isdir(here):
+                break
+            names = sorted(os.listdir(here))
+            dirs = [x for x in names if os.path.isdir(os.path.join(here, x))]
+            r = rng.random()
+            if r < 0.45 and dirs:
+                parts.append(rng.choice(dirs))
+            elif r < 0.6 and names:
+                parts.append(rng.choice(names))
+            elif r < 0.78:
+                if os.path.realpath(here) != rroot:
+                    parts.append('..')
+            elif r < 0.86:
+                parts.append('.')
+            elif r < 0.94:
+                parts.append('')
+            else:
+                parts.append(rng.choice(['nope', 'nope.torrent']))
+        if rng.random() < 0.15:
+            parts.append('')
+        if absolute:
+            text = ('{S}' if base == sroot else '{R}') + ''.join('/' + c for c in parts)
+        else:
+            while parts and parts[0] == '':      # a leading slash would make it absolute
+                parts = parts[1:]
+            text = '/'.join(parts) if parts else rng.choice(['.', './'])
+        out.append(text)
+    return out
+
+
+@contextlib.contextmanager
+def running_as(cwd, euid):
+    """the working directory and effective uid of one call"""
+    old = os.getcwd()
+    try:
+        if cwd:
+            os.chdir(cwd)
+        if euid:
+            os.seteuid(euid)
+        yield
+    finally:
+        if euid:
+            os.seteuid(0)
+        os.chdir(old)
+
+
+def walk_items(paths, plan, cid_of):
+    """the harness's own statement of what the search must visit, in os.listdir order, with the
+    spellings as given and the operating system's resolution (run in the call's cwd / euid);
+    items: (spelling | None, kind, content id | None)"""
     items = []
 
     def find(p):
         if os.path.isdir(p):
-            for name in os.listdir(p):
+            try:
+                names = os.listdir(p)
+            except OSError:
+                items.append((None, 'pathError', None))
+                return
+            for name in names:
                 find(p + os.sep + name)
         elif os.path.basename(p).lower().endswith('.torrent'):
             try:
-                sz = os.path.getsize(p)
+                st = os.stat(p)
             except OSError:
-                items.append((p, ('unreadable',)))
+                items.append((p, 'unreadable', None))
                 return
-            if sz <= MAXSZ:
-                items.append((p, plan.get(p, ('unreadable',))))
+            if st.st_size <= MAXSZ:
+                try:
+                    open(p, 'rb').close()
+                except OSError:
+                    items.append((p, 'unreadable', None))
+                else:
+                    items.append((p, plan.get(st.st_ino, ('undecodable',))[0], cid_of.get(st.st_ino)))
         elif not os.path.exists(p):
-            items.append((None, ('pathError',)))
+            items.append((None, 'pathError', None))
     for p in paths:
         find(p)
     return items
@@ -221,9 +358,9 @@ def damage(cpath, sc):
             f.truncate(os.path.getsize(p) - 1)
     elif d['how'] == 'flipbyte':
         with open(p, 'r+b') as f:
-            f.seek(d['at'])
+            f.seek(d['at'] % os.path.getsize(p))
             b = f.read(1)
-            f.seek(d['at'])
+            f.seek(d['at'] % os.path.getsize(p))
             f.write(bytes([b[0] ^ 0xff]))
 
 
@@ -246,6 +383,43 @@ def meta_obs(t):
             'files': files, 'rest': [rest, top, extra_file_keys]}
 
 
+def make_arg(kind, texts):
+    """the `path` argument of reuse() and the spellings torf gets to see (`str()` of each item)"""
+    if kind == 'str' and len(texts) == 1:
+        return texts[0], list(texts)
+    if kind == 'path' and len(texts) == 1:
+        return pathlib.Path(texts[0]), [str(pathlib.Path(texts[0]))]
+    if kind == 'tuple':
+        return tuple(texts), list(texts)
+    if kind == 'gen':
+        return (x for x in list(texts)), list(texts)
+    if kind == 'pathlist':
+        objs = [pathlib.Path(x) if i % 2 == 0 else x for i, x in enumerate(texts)]
+        return objs, [str(o) for o in objs]
+    return list(texts), list(texts)
+
+
+_WARM = set()
+
+
+def _warm(torf, wd):
+    """run every code path once as root so that no module is first imported under another euid"""
+    if os.getpid() in _WARM:
+        return
+    _WARM.add(os.getpid())
+    sc = {'name': 'W', 'single': False, 'files': [[['a'], K + 5, 'f0'], [['b'], K, 'f1']], 'cseed': 1, 'tfiles': []}
+    sc['tfiles'] = [_tf(['t', 'bad.torrent'], kind='undecodable'), _tf(['t', 'x.torrent'], cand=_cand(sc))]
+    cpath, root, sroot, plan = build(wd, sc)
+    for cb in (None, lambda *a: None):
+        t = torf.Torrent(path=cpath)
+        try:
+            t.reuse([sroot, sroot + '/nope'], callback=cb)
+            t.validate()
+            t.verify(cpath, threads=1, callback=lambda *a: None)
+        except torf.TorfError:
+            pass
+
+
 def _run_chunk(scs):
     torf = common.import_torf()
     wd = common.worker_dir()
@@ -253,10 +427,22 @@ def _run_chunk(scs):
     for sc in scs:
         obs = {'runs': []}
         try:
-            cpath, arg, plan = build(wd, sc)
-            paths = arg if isinstance(arg, list) else [arg]
-            items = walk_items(paths, plan)
-            ipaths = [p for p, _ in items]
+            euid = sc.get('euid', 0)
+            if euid:
+                _warm(torf, wd)
+            cpath, root, sroot, plan = build(wd, sc)
+            cwd_abs = os.path.join(root, *sc['cwd']) if sc.get('cwd') is not None else None
+            if 'spell' not in sc:
+                if 'walk' in sc:
+                    sc['spell'] = gen_spellings(random.Random(sc['walk']['seed']), root, sroot, cwd_abs, sc['walk']['n'])
+                else:
+                    sc['spell'] = ['{S}' + ''.join('/' + c for c in a) for a in sc['search']]
+            texts = [x.replace('{S}', sroot).replace('{R}', root) for x in sc['spell']]
+            for x in texts:       # the model is told about `root` only: no spelling may lead elsewhere
+                rp = os.path.realpath(os.path.join(cwd_abs or root, x))
+                assert x == '' or (rp + '/').startswith(os.path.realpath(root) + '/'), f'spelling {x!r} leaves the scratch root'
+            argkind = sc.get('argkind') or ('str' if sc.get('scalar_arg') and len(texts) == 1 else 'list')
+            _, seen_texts = make_arg(argkind, texts)
 
             def fresh():
                 t = torf.Torrent(path=cpath, piece_size_min=sc.get('plmin'), piece_size_max=sc.get('plmax'))
@@ -267,20 +453,22 @@ def _run_chunk(scs):
             obs['t'] = dict(meta_obs(t0), plMin=t0.piece_size_min, plMax=t0.piece_size_max,
                             single=t0.mode == 'singlefile')
             damage(cpath, sc)
+            nodes, contents, cid_of = scan_fs(root, euid, plan)
             # local outcome per candidate geometry (after the damage), computed by the harness
-            mitems = []
-            for p, pl_ in items:
-                if pl_[0] == 'torrent':
-                    m = pl_[1]
+            mcontents = []
+            for c in contents:
+                if c[0] == 'torrent':
+                    m = c[1]
                     loc = local_pieces(cpath, sc['single'], m) if m['name'] == sc['name'] else []
-                    mitems.append({'kind': 'torrent', 'cand': m, 'loc': loc})
+                    mcontents.append({'kind': 'torrent', 'cand': m, 'loc': loc})
                 else:
-                    mitems.append({'kind': pl_[0]})
-            obs['items'] = mitems
-            obs['ipaths'] = ipaths
+                    mcontents.append({'kind': c[0]})
+            with running_as(cwd_abs, euid):
+                sitems = walk_items(seen_texts, plan, cid_of)
+            obs.update(fs=nodes, contents=mcontents, sitems=sitems, paths=seen_texts,
+                       cwd=os.path.realpath(cwd_abs) if cwd_abs else os.path.realpath(root), euid=euid)
             # callback variants: none, passive, passive with a huge interval, then cancel at each call
             variants = [('none', None, 0), ('passive', (), 0), ('passive-interval', (), 1e9)]
-            passive_trace = None
             vi = 0
             while vi < len(variants):
                 label, stops, interval = variants[vi]
@@ -297,16 +485,20 @@ def _run_chunk(scs):
 
                 def cb(tt, path, done, total, is_match, exc, _stops=stops):
                     ok = tt is t and (exc is None or isinstance(exc, torf.TorfError))
+                    if path is not None:
+                        path = os.fspath(path)
                     calls.append([path if ok else 'BAD-ARGS', done, total, is_match,
                                   None if exc is None else exc_kind(exc)])
                     if _stops and [path, is_match] in [list(s) for s in _stops]:
                         return (False, 0, 'stop')[done % 3]
                     return None
-                try:
-                    r = t.reuse(arg, callback=None if stops is None else cb, interval=interval)
-                    res = {'ok': r} if isinstance(r, bool) else {'ok': repr(r)}
-                except BaseException as e:  # noqa
-                    res = {'raised': exc_kind(e)}
+                arg, _ = make_arg(argkind, texts)
+                with running_as(cwd_abs, euid):
+                    try:
+                        r = t.reuse(arg, callback=None if stops is None else cb, interval=interval)
+                        res = {'ok': r} if isinstance(r, bool) else {'ok': repr(r)}
+                    except BaseException as e:  # noqa
+                        res = {'raised': exc_kind(e)}
                 after = meta_obs(t)
                 run = {'label': label, 'stops': None if stops is None else [list(s) for s in stops],
                        'elapsed': interval == 0, 'res': res, 'calls': calls, 'before': before, 'after': after}
@@ -323,11 +515,10 @@ def _run_chunk(scs):
                             run['verify'] = 'raised:' + exc_kind(e)
                 obs['runs'].append(run)
                 if label == 'passive':
-                    passive_trace = calls
                     seen = []
                     for c in calls:
                         key = (c[0], c[3])
-                        if key not in seen:
+                        if key not in seen and len(seen) < sc.get('max_cancel', 12):
                             seen.append(key)
                             variants.append((f'cancel@{len(seen)}', (key,), 0))
         except BaseException:  # noqa
@@ -340,16 +531,49 @@ def _run_chunk(scs):
 # --------------------------------------------------------------------------------------------
 # generators
 
-def _layout(rng, single=False):
+CAP = 10          # TorrentFileStream.max_open_files: a piece with more than CAP + 1 files overflows the handle cache
+
+
+def _cluster(rng, prefix, n, budget, sub=None):
+    """n tiny files that together stay below `budget` bytes (so that they share one piece)"""
+    sizes = [rng.choice([1, 2, 7, 100, 333, rng.randint(1, max(1, budget // n))]) for _ in range(n)]
+    while sum(sizes) >= budget:
+        sizes[sizes.index(max(sizes))] //= 2
+    sizes = [max(1, x) for x in sizes]
+    return [[(sub or []) + ['%s%02d.nfo' % (prefix, i)], sizes[i], '%s%d' % (prefix, i)] for i in range(n)]
+
+
+def _layout(rng, single=False, style='std'):
     if single:
         return [[[], rng.choice([5, 6, 7, 9]) * K + rng.choice([0, 1, 777, K - 1]), 'f0']]
-    n = rng.choice([3, 3, 3, 4])
-    files = []
-    dirs = rng.choice([[[], [], [], []], [[], ['d'], ['d'], ['e', 'f']], [['d'], ['d'], [], ['d']]])
-    for i in range(n):
-        size = rng.choice([5, 5, 6, 7, 8]) * K + rng.choice([1, 123, 4321, K - 1, K // 2, 0 if i else 17])
-        files.append([dirs[i] + ['%s%d.bin' % ('abcd'[i], i)], size, 'f%d' % i])
-    return files
+    if style == 'std':
+        n = rng.choice([3, 3, 3, 4])
+        files = []
+        dirs = rng.choice([[[], [], [], []], [[], ['d'], ['d'], ['e', 'f']], [['d'], ['d'], [], ['d']]])
+        for i in range(n):
+            size = rng.choice([5, 5, 6, 7, 8]) * K + rng.choice([1, 123, 4321, K - 1, K // 2, 0 if i else 17])
+            files.append([dirs[i] + ['%s%d.bin' % ('abcd'[i], i)], size, 'f%d' % i])
+        return files
+    # clusters: more files inside one piece than the stream keeps open (CAP + 1), next to files that
+    # span many pieces; the cluster sits in the first, a middle or the last piece of the stream
+    nt = rng.choice([CAP + 2, CAP + 3, CAP + 6, 2 * CAP + 5])
+    big = lambda nm, key: [[nm], rng.choice([3, 5, 6]) * K + rng.choice([0, 1, 4321, K - 1]), key]  # noqa: E731
+    sub = rng.choice([None, None, ['nfo']])
+    if style == 'cluster-first':
+        return _cluster(rng, '0', nt, K - 1, sub and ['0' + sub[0]]) + [big('zz-payload.bin', 'big0')]
+    if style == 'cluster-mid':
+        return [big('a-first.bin', 'big0')] + _cluster(rng, 'm', nt, K // 2, sub and ['m' + sub[0]]) + [big('z-last.bin', 'big1')]
+    if style == 'cluster-last':
+        return [big('a-first.bin', 'big0')] + _cluster(rng, 'z', nt, K // 2, sub and ['z' + sub[0]])
+    if style == 'cluster-only':
+        return _cluster(rng, 'c', nt, K - 1) if rng.random() < 0.5 else _cluster(rng, 'c', 3 * CAP, 3 * K)
+    if style == 'cluster-two':
+        return (_cluster(rng, '0', nt, K // 2) + [big('b-mid.bin', 'big0')] + _cluster(rng, 'n', CAP + 2, K // 2)
+                + [big('q-mid.bin', 'big1')] + _cluster(rng, 'z', CAP + 4, K // 2))
+    raise ValueError(style)
+
+
+CLUSTER_STYLES = ['cluster-first', 'cluster-mid', 'cluster-last', 'cluster-only', 'cluster-two']
 
 
 def _sorted_files(files):
@@ -371,11 +595,157 @@ def _tf(at, kind='torrent', cand=None, **kw):
     return d
 
 
-def _scenario(rng, shape, single=False):
-    files = _layout(rng, single)
-    return {'name': 'single.bin' if single else rng.choice(['Content', 'My Files', 'c.d']),
-            'single': single, 'files': files, 'cseed': rng.randrange(1 << 30), 'tfiles': [],
-            'search': [['tree']], 'shape': shape}
+def _scenario(rng, shape, single=False, style='std'):
+    files = _layout(rng, single, style)
+    sc = {'name': 'single.bin' if single else rng.choice(['Content', 'My Files', 'c.d']),
+          'single': single, 'files': files, 'cseed': rng.randrange(1 << 30), 'tfiles': [],
+          'search': [['tree']], 'shape': shape}
+    if style != 'std' and not single and rng.random() < 0.6:
+        # zero-length neighbours on disk, between the files of the cluster (torf leaves them out)
+        first = _sorted_files(files)[len(files) // 2][0]
+        sc['extra_empty'] = [first[:-1] + [first[-1] + '.empty'], ['0000.empty'], ['zzzz.empty']]
+    return sc
+
+
+STD_DIRS = [['tree'], ['tree', 'a'], ['tree', 'a', 'b'], ['tree', 'c'], ['other']]
+# links never lead from `tree` back to `other` or upwards: the tree stays free of cycles
+LINK_MENU = [
+    {'at': ['ln_b'], 'to': 'tree/a/b'},                      # relative and deep: ln_b/.. is tree/a
+    {'at': ['ln_a_slash'], 'to': 'tree/a/'},                 # target with a trailing slash
+    {'at': ['other', 'ln_tree'], 'to': '../tree'},
+    {'at': ['other', 'd.torrent'], 'to': '../tree/c'},       # a directory behind a *.torrent name
+    {'at': ['tree', 'a', 'chain'], 'to': '../../ln_b'},      # link to a link
+    {'at': ['tree', 'c', 'abs_b'], 'to': '{S}/tree/a/b'},    # absolute target
+    {'at': ['tree', 'junk'], 'to': 'missing-target'},        # dangling, not a torrent name
+    {'at': ['tree', 'c', 'dots'], 'to': './../a/./b/..'},    # dots inside the target
+]
+ARGKINDS = ['str', 'list', 'tuple', 'gen', 'path', 'pathlist']
+
+
+def gen_search_scenarios(ctx, rng):
+    """families whose subject is the search: spelling and kind of the search paths, links inside the
+    searched tree, permissions, many files, depth"""
+    out = []
+
+    def base(shape, single=False):
+        sc = _scenario(rng, shape, single)
+        sc['files'] = [[f[0], min(f[1], 5 * K + 17), f[2]] for f in sc['files'][:3]]
+        return sc
+    # --- 1. a menu of spellings for one directory that holds the only faithful candidate
+    for variant in range(ctx.n(2, 6)):
+        proto = base('spelling')
+        good, other = _cand(proto), _cand(proto, name=proto['name'] + 'x')
+        tfs = [_tf(['data', 'torrents', 'good.torrent'], cand=good),
+               _tf(['data', 'v2', 'other.torrent'], cand=other),
+               _tf(['data', 'store', 'blob'], kind='ignored', cand=_cand(proto, pl=2 * K))]
+        if variant % 2:
+            tfs.append(_tf(['home', 'torrents', 'decoy.torrent'], cand=other))   # the lexical location exists
+        links = [{'at': ['home', 'cur'], 'to': '../data/v2' if variant % 4 < 2 else '{S}/data/v2'},
+                 {'at': ['home', 'g.torrent'], 'to': '../data/torrents/good.torrent'},
+                 {'at': ['home', 'c.torrent'], 'to': '../data/store/blob'},
+                 {'at': ['home', 't'], 'to': '../data/torrents'}]
+        menu = [(None, [x]) for x in (
+            '{S}/home/cur/../torrents', '{S}/home/cur/../torrents/good.torrent',
+            '{S}/data/torrents', '{S}/data/torrents/', '{S}//data//torrents', '{S}/./data/./torrents/.',
+            '{S}/data/v2/../torrents',
+            '{S}/home/../data/torrents', '{S}/home/t', '{S}/home/t/', '{S}/home/t/.', '{S}/home/t/../torrents',
+            '{S}/home/g.torrent', '{S}/home/c.torrent', '{S}/home/cur/../store/../torrents//',
+            '{S}/home/cur/../../home/cur/../torrents', '{S}/data/torrents/good.torrent/', '{S}/home/cur/..')]
+        menu += [(['search', 'home'], ['cur/../torrents']), (['search', 'home'], ['../data/torrents']),
+                 (['search', 'home'], ['./t']), (['search', 'home'], ['t/good.torrent']),
+                 (['search', 'home'], ['g.torrent']), (['search', 'data', 'v2'], ['../torrents']),
+                 (['search', 'home', 'cur'], ['../torrents']), (['search', 'home', 'cur'], ['..']),
+                 (['search', 'data', 'torrents'], ['.']), (['search', 'data', 'torrents'], ['']),
+                 (['search', 'data', 'torrents'], ['good.torrent']), (['search', 'data'], ['torrents/good.torrent/']),
+                 (['search'], ['home/c.torrent']), (['content'], ['../search/home/cur/../torrents']),
+                 (None, ['{S}/data/v2', '{S}/home/cur/../torrents']), (None, ['{S}/home/cur/../torrents', '{S}/data/v2']),
+                 (None, ['{S}/home/t', '{S}/data/torrents']), (None, ['{S}/data/torrents', '{S}/data/torrents']),
+                 (None, ['{S}/nowhere', '{S}/home/cur/../torrents']), (['search', 'home'], ['nowhere', 'cur/../torrents/']),
+                 (None, ['{S}/home/c.torrent', '{S}/home/g.torrent'])]
+        for i, (cwd, spell) in enumerate(menu):
+            sc = json.loads(json.dumps(proto))
+            sc.update(tfiles=tfs, links=links, dirs=[['home'], ['data', 'v2']], spell=spell, cwd=cwd,
+                      argkind=ARGKINDS[(i + variant) % len(ARGKINDS)], shape='spelling', max_cancel=3)
+            sc.pop('search')
+            out.append(sc)
+    # --- 2. links inside the searched tree
+    for variant in range(ctx.n(2, 8)):
+        proto = base('links')
+        good, other = _cand(proto), _cand(proto, name=proto['name'] + 'x')
+        shapes = [
+            ([{'at': ['tree', 'ext'], 'to': '../other'}], [_tf(['other', 'good.torrent'], cand=good)]),
+            ([{'at': ['tree', 'ext'], 'to': '{S}/other'}], [_tf(['other', 'sub', 'good.torrent'], cand=good)]),
+            ([{'at': ['tree', 'x.torrent'], 'to': '../other'}], [_tf(['other', 'good.torrent'], cand=good)]),
+            ([{'at': ['tree', 'l.torrent'], 'to': '../other/blob'}], [_tf(['other', 'blob'], kind='ignored', cand=good)]),
+            ([{'at': ['tree', 'l.txt'], 'to': '../other/good.torrent'}], [_tf(['other', 'good.torrent'], cand=good)]),
+            ([{'at': ['tree', 'c1'], 'to': 'c2'}, {'at': ['tree', 'c2'], 'to': '../other/.'}],
+             [_tf(['other', 'good.torrent'], cand=good)]),
+            ([{'at': ['tree', 'dangling.torrent'], 'to': 'gone'}, {'at': ['tree', 'junk'], 'to': 'gone'}],
+             [_tf(['tree', 'good.torrent'], cand=good)]),
+            ([{'at': ['tree', 'loop'], 'to': '.'}], [_tf(['tree', 'good.torrent'], cand=good)]),
+            ([{'at': ['tree', 'loop'], 'to': '../tree'}], [_tf(['tree', 'no.torrent'], cand=other)]),
+            ([{'at': ['tree', 'l1'], 'to': 'l2'}, {'at': ['tree', 'l2'], 'to': 'l1'}],
+             [_tf(['tree', 'good.torrent'], cand=good)]),
+        ]
+        for i, (links, tfs) in enumerate(shapes):
+            sc = json.loads(json.dumps(proto))
+            sc.update(tfiles=tfs + [_tf(['tree', 'first.torrent'], cand=other)], links=links, dirs=[['tree'], ['other']],
+                      spell=[['{S}/tree'], ['{S}/tree/'], ['tree']][(i + variant) % 3], cwd=['search'],
+                      argkind=ARGKINDS[(i + 2 * variant) % len(ARGKINDS)], shape='links', max_cancel=2)
+            sc.pop('search')
+            out.append(sc)
+    # --- 3. permissions (the call runs with another effective uid): directories that cannot be listed
+    #        or searched, a torrent file that cannot be opened
+    for variant in range(ctx.n(1, 4)):
+        proto = base('perms')
+        good, other = _cand(proto), _cand(proto, name=proto['name'] + 'x')
+        shapes = [
+            ([_tf(['tree', 'locked', 'good.torrent'], cand=good), _tf(['tree', 'z.torrent'], cand=other)],
+             [{'at': ['tree', 'locked'], 'mode': 0o000}], ['{S}/tree']),
+            ([_tf(['tree', 'locked', 'x.torrent'], cand=other), _tf(['tree', 'z', 'good.torrent'], cand=good)],
+             [{'at': ['tree', 'locked'], 'mode': 0o000}], ['{S}/tree']),
+            ([_tf(['tree', 'ronly', 'x.torrent'], cand=good), _tf(['tree', 'ronly', 'sub', 'y.torrent'], cand=good),
+              _tf(['tree', 'ronly', 'note.txt'], kind='ignored', cand=other), _tf(['tree', 'z', 'good.torrent'], cand=good)],
+             [{'at': ['tree', 'ronly'], 'mode': 0o444}], ['{S}/tree']),
+            ([_tf(['tree', 'xonly', 'good.torrent'], cand=good)], [{'at': ['tree', 'xonly'], 'mode': 0o111}], ['{S}/tree']),
+            ([_tf(['tree', 'xonly', 'good.torrent'], cand=good)], [{'at': ['tree', 'xonly'], 'mode': 0o111}],
+             ['{S}/tree/xonly/good.torrent']),
+            ([_tf(['tree', 'xonly', 'sub', 'good.torrent'], cand=good)], [{'at': ['tree', 'xonly'], 'mode': 0o111}],
+             ['{S}/tree/xonly/sub/../sub']),
+            ([_tf(['tree', 'secret.torrent'], cand=good), _tf(['tree', 'z', 'good.torrent'], cand=_cand(proto, pl=2 * K))],
+             [{'at': ['tree', 'secret.torrent'], 'mode': 0o000}], ['{S}/tree']),
+            ([_tf(['tree', 'locked', 'a', 'good.torrent'], cand=good)], [{'at': ['tree', 'locked'], 'mode': 0o000}],
+             ['{S}/tree/locked/a', '{S}/tree/locked/../locked', '{S}/tree/locked/']),
+        ]
+        for i, (tfs, perms, spell) in enumerate(shapes):
+            sc = json.loads(json.dumps(proto))
+            sc.update(tfiles=tfs, perms=perms, spell=spell, cwd=['search'], euid=NOBODY if variant % 2 == 0 else 0,
+                      argkind=ARGKINDS[(i + variant) % 4], shape='perms', max_cancel=2)
+            sc.pop('search')
+            out.append(sc)
+    # --- 4. very many files in one directory, the faithful one somewhere among them; deep nesting
+    for variant in range(ctx.n(1, 3)):
+        proto = base('many')
+        good, other = _cand(proto), _cand(proto, name=proto['name'] + 'x')
+        n = ctx.n(60, 400)
+        at = rng.randrange(n)
+        tfs = [_tf(['tree', 'n%03d.torrent' % i], cand=good if i == at else other) for i in range(n)]
+        tfs += [_tf(['tree', 'readme-%d.txt' % i], kind='ignored', cand=other) for i in range(10)]
+        sc = json.loads(json.dumps(proto))
+        sc.update(tfiles=tfs, spell=['{S}/tree'], argkind='str', shape='many', max_cancel=2)
+        sc.pop('search')
+        out.append(sc)
+        depth = ctx.n(12, 60)
+        sc = json.loads(json.dumps(proto))
+        chain = ['d%d' % i for i in range(depth)]
+        sc.update(tfiles=[_tf(['tree'] + chain + ['good.torrent'], cand=good), _tf(['tree', 'd0', 'x.torrent'], cand=other)],
+                  # the link makes the tail of the chain reachable twice; no cycle (it points downwards)
+                  links=[{'at': ['tree', 'side'], 'to': 'd0/d1/d2'}] if variant % 2 else [],
+                  spell=['{S}/tree', 'tree/d0/../d0/d1'][:1 + variant % 2], cwd=['search'], argkind='tuple', shape='deep',
+                  max_cancel=2)
+        sc.pop('search')
+        out.append(sc)
+    return out
 
 
 def gen_scenarios(ctx, scale=1.0):
@@ -385,10 +755,11 @@ def gen_scenarios(ctx, scale=1.0):
     def npieces(sc, pl=K):
         return -(-sum(f[1] for f in sc['files']) // pl)
     # 1. one differing piece at every piece position (pins the sampled set exactly); both for the
-    #    torrent's own order and for a permuted candidate order, and for a second piece length
-    for single in (False, True):
-        for rep in range(ctx.n(3, 12)):
-            base = _scenario(rng, 'flip-every-piece', single)
+    #    torrent's own order and for a permuted candidate order, and for a second piece length;
+    #    on the standard layouts and on the layouts with clusters of tiny files
+    for single, style in [(False, 'std'), (True, 'std')] + [(False, s) for s in CLUSTER_STYLES]:
+        for rep in range(ctx.n(3, 12) if style == 'std' else ctx.n(1, 4)):
+            base = _scenario(rng, 'flip-every-piece' if style == 'std' else 'flip-cluster', single, style)
             variants = [dict()]
             if not single:
                 perm = [list(f) for f in base['files']]
@@ -412,7 +783,8 @@ def gen_scenarios(ctx, scale=1.0):
             'pl-32k': _cand(sc, pl=2 * K),
             'pl-64k': _cand(sc, pl=4 * K),
             'size+1': _cand(sc, files=[[f[0], f[1] + (1 if i == len(fs) - 1 else 0), f[2]] for i, f in enumerate(fs)]),
-            'size-1': _cand(sc, files=[[f[0], f[1] - (1 if i == 0 else 0), f[2]] for i, f in enumerate(fs)]),
+            'size-1': _cand(sc, files=[[f[0], f[1] + (-1 if i == 0 and f[1] > 1 else 1 if i == 0 else 0), f[2]]
+                                       for i, f in enumerate(fs)]),
             'flip-first': _cand(sc, flip=[0]),
             'flip-last': _cand(sc, flip=[npieces(sc) - 1]),
         }
@@ -430,13 +802,16 @@ def gen_scenarios(ctx, scale=1.0):
                 ks['sep-in-component'] = _cand(sc, files=[[[os.sep.join(f[0])] if j == i else f[0], f[1], f[2]]
                                                           for j, f in enumerate(fs)])
             ks['as-single'] = _cand(sc, single=True, files=[[[], sum(f[1] for f in fs), 'f0']])
+            if sc.get('extra_empty'):
+                # a candidate that lists the zero-length files too: another file set
+                ks['with-empties'] = _cand(sc, files=_sorted_files(fs + [[e, 0, 'e'] for e in sc['extra_empty']]))
         return ks
-    for single in (False, True):
-        for rep in range(ctx.n(6, 40)):
-            base = _scenario(rng, 'kinds', single)
+    for single, style in [(False, 'std'), (True, 'std')] + [(False, s) for s in CLUSTER_STYLES]:
+        for rep in range(ctx.n(6, 40) if style == 'std' else ctx.n(1, 6)):
+            base = _scenario(rng, 'kinds', single, style)
             for kname, cd in kinds(base).items():
                 sc = json.loads(json.dumps(base))
-                sc['shape'] = 'kind:' + kname
+                sc['shape'] = ('kind:' if style == 'std' else 'kind-cluster:') + kname
                 sc['tfiles'] = [_tf(['tree', 'k.torrent'], cand=cd)]
                 if kname == 'pl-64k' or rng.random() < 0.25:
                     sc['plmax'] = rng.choice([2 * K, 4 * K])
@@ -444,16 +819,23 @@ def gen_scenarios(ctx, scale=1.0):
                     sc['plmin'] = 2 * K
                 sc['t_has_pieces'] = rng.random() < 0.3
                 sc['scalar_arg'] = rng.random() < 0.5
+                if style != 'std' and kname in ('faithful', 'permuted', 'flip-last') and rng.random() < 0.5:
+                    nf = len(sc['files'])
+                    sc['damage'] = {'file': rng.randrange(nf), 'how': rng.choice(['delete', 'truncate', 'flipbyte']),
+                                    'at': rng.randrange(5 * K)}
                 out.append(sc)
-    # 3. search trees: mixtures of items in nested directories, several paths, odd entries
+    # 3. the search: spellings, links, permissions, many files, depth
+    out += gen_search_scenarios(ctx, rng)
+    # 4. search trees: mixtures of items in nested directories, several paths, odd entries, links,
+    #    guided random spellings from a working directory
     for rep in range(int(ctx.n(400, 6000) * scale)):
         single = rng.random() < 0.25
-        sc = _scenario(rng, 'tree', single)
+        sc = _scenario(rng, 'tree', single, 'std' if rng.random() < 0.9 else rng.choice(CLUSTER_STYLES))
         ks = kinds(sc)
         names = list(ks)
         tfs = []
         nitems = rng.randint(1, 7)
-        dirs = [['tree'], ['tree', 'a'], ['tree', 'a', 'b'], ['tree', 'c'], ['other']]
+        dirs = STD_DIRS
         for i in range(nitems):
             d = rng.choice(dirs)
             r = rng.random()
@@ -474,18 +856,36 @@ def gen_scenarios(ctx, scale=1.0):
             else:
                 tfs.append(_tf(d + [f'{i}-dir.torrent'], kind='emptydir'))
         sc['tfiles'] = tfs
-        shape = rng.choice(['dir', 'dir', 'two', 'files', 'with-missing', 'with-missing-torrent'])
-        if shape == 'dir':
-            sc['search'] = [['tree']]
-            sc['scalar_arg'] = rng.random() < 0.5
-        elif shape == 'two':
-            sc['search'] = [['other'], ['tree']]
-        elif shape == 'files':
-            sc['search'] = [tf['at'] for tf in tfs if tf['kind'] != 'emptydir'][:4] or [['tree']]
-        elif shape == 'with-missing':
-            sc['search'] = [['nonexistent', 'dir'], ['tree'], ['other']]
+        if rng.random() < 0.45:
+            # symbolic links (no cycles) and spellings found by walking the real tree
+            sc['dirs'] = STD_DIRS
+            sc['links'] = rng.sample(LINK_MENU, rng.randint(1, 4))
+            files_there = [tf['at'] for tf in tfs if tf['kind'] not in ('emptydir',)]
+            if files_there and rng.random() < 0.6:
+                tgt = rng.choice(files_there)
+                sc['links'] = sc['links'] + [{'at': ['other', rng.choice(['to-file.torrent', 'to-file.txt', 'TO.TORRENT'])],
+                                              'to': '../' + '/'.join(tgt)}]
+            sc['cwd'] = rng.choice([None, ['search'], ['search', 'tree'], ['search', 'tree', 'a'], ['search', 'ln_b'],
+                                    ['content']])
+            if sc['cwd'] == ['search', 'ln_b'] and not any(ln['at'] == ['ln_b'] for ln in sc['links']):
+                sc['cwd'] = ['search', 'other']
+            sc['walk'] = {'seed': rng.randrange(1 << 30), 'n': rng.choice([1, 1, 2, 3])}
+            sc['argkind'] = rng.choice(ARGKINDS)
+            sc['shape'] = 'tree-walk'
+            sc.pop('search')
         else:
-            sc['search'] = [['tree', 'a'], ['nowhere', 'x.torrent'], ['tree']]
+            shape = rng.choice(['dir', 'dir', 'two', 'files', 'with-missing', 'with-missing-torrent'])
+            if shape == 'dir':
+                sc['search'] = [['tree']]
+                sc['scalar_arg'] = rng.random() < 0.5
+            elif shape == 'two':
+                sc['search'] = [['other'], ['tree']]
+            elif shape == 'files':
+                sc['search'] = [tf['at'] for tf in tfs if tf['kind'] != 'emptydir'][:4] or [['tree']]
+            elif shape == 'with-missing':
+                sc['search'] = [['nonexistent', 'dir'], ['tree'], ['other']]
+            else:
+                sc['search'] = [['tree', 'a'], ['nowhere', 'x.torrent'], ['tree']]
         if rng.random() < 0.2:
             sc['plmax'] = rng.choice([K, 2 * K])
         if rng.random() < 0.12:
@@ -504,9 +904,41 @@ def _cand_after(m):
     return {'pl': m['pl'], 'pieces': m['hashes'], 'files': [[f['path'], f['size']] for f in m['files']]}
 
 
-def check_spec(before, res, after, rep, items, stops, what):
+def _plain(p):
+    """a spelling without its empty and `.` components (what denotes the same thing for every OS)"""
+    comps = [c for c in p.split('/') if c not in ('', '.')]
+    return ('/' if p.startswith('/') else '') + '/'.join(comps)
+
+
+def check_reports(calls, sitems, what):
+    """S4: what the callback is told: paths are search paths joined with listed names (up to empty and
+    `.` components); an error is reported only for something that really cannot be used"""
+    known = {}
+    for p, kind, _ in sitems:
+        known.setdefault(None if p is None else _plain(p), set()).add(kind)
+    for c in calls:
+        p, exc = c[0], c[4]
+        key = None if p is None else _plain(p)
+        if p is not None and key not in known:
+            return f'{what}: the callback was given the path {p!r}, which is not a search path joined with listed names'
+        if p is None and None not in known:
+            return (f'{what}: the callback was told about an unusable search path / directory ({exc}) although every '
+                    'given path exists and every directory can be listed')
+        if exc is not None and p is not None and known[key] == {'torrent'}:
+            return f'{what}: the callback was told {exc} for {p!r}, which is a readable, valid torrent file'
+    return None
+
+
+def check_spec(before, res, after, rep, items, stops, what, calls=None, sitems=None):
     """the executable specification applied to an outcome (of the implementation or of the model);
     returns None or a description of the deviation"""
+    bad = check_result(before, res, after, rep, items, stops, what)
+    if bad is None and calls is not None and sitems is not None:
+        bad = check_reports(calls, sitems, what)
+    return bad
+
+
+def check_result(before, res, after, rep, items, stops, what):
     if res == {'ok': True}:
         # S1: some acceptable candidate; the torrent carries exactly its piece length, hashes, file order
         for it, info in zip(items, rep['items']):
@@ -529,11 +961,13 @@ def check_spec(before, res, after, rep, items, stops, what):
 
 
 def _key(sc, label):
-    return json.dumps([sc['name'], sc['files'], sc['tfiles'], sc['search'], sc.get('damage'), sc.get('plmin'),
-                       sc.get('plmax'), label], sort_keys=True)
+    return json.dumps([sc['name'], sc['files'], sc['tfiles'], sc.get('search'), sc.get('spell'), sc.get('cwd'),
+                       sc.get('links'), sc.get('perms'), sc.get('euid'), sc.get('argkind'), sc.get('damage'),
+                       sc.get('plmin'), sc.get('plmax'), label], sort_keys=True)
 
 
 def evaluate(ctx, drv, scs):
+    os.umask(0o022)
     results = common.pmap(_run_chunk, common.split(scs, common.NPROC * 6))
     flat = [x for chunk in results for x in chunk]
     reqs, owner = [], []
@@ -547,34 +981,49 @@ def evaluate(ctx, drv, scs):
             tj2 = dict(tj)
             if run['before']['pieces'] is not None:
                 tj2['pieces'] = run['before']['pieces']
-            ipaths = obs['ipaths']
-            cbj = None
-            if run['stops'] is not None:
-                cbj = [[ipaths.index(p) if p in ipaths else 10 ** 6, m] for p, m in run['stops']]
-            reqs.append({'op': 'c18.reuse', 't': tj2, 'items': obs['items'], 'cb': cbj, 'elapsed': run['elapsed']})
+            reqs.append({'op': 'c18.reusePaths', 't': tj2, 'fs': obs['fs'], 'cwd': obs['cwd'], 'paths': obs['paths'],
+                         'contents': obs['contents'], 'cb': run['stops'], 'elapsed': run['elapsed'], 'fuel': FUEL,
+                         'maxSize': MAXSZ})
             owner.append((si, ri))
     replies = drv.run(reqs)
     for (si, ri), rep in zip(owner, replies):
         sc, obs = flat[si]
         run = obs['runs'][ri]
-        items, ipaths = obs['items'], obs['ipaths']
         case = {'scenario': {k: v for k, v in sc.items()}, 'callback': run['label'], 'stops': run['stops'],
                 'interval': 0 if run['elapsed'] else 1e9}
+        # the model's search against the operating system's (the harness's own walk of the real tree)
+        contents = obs['contents']
+        sitems = [list(x) for x in obs['sitems']]
+        mitems = []
+        for f in rep['found']:
+            if f['kind'] == 'pathError':
+                mitems.append([None, 'pathError', None])
+            elif not f['statOk'] or not f['readable']:
+                mitems.append([f['path'], 'unreadable', None])
+            else:
+                mitems.append([f['path'], contents[f['cid']]['kind'], f['cid']])
+        if rep['overflow']:
+            ctx.dist['outside-hyp:recursion'] += 1
+        elif mitems != sitems:
+            ctx.machinery_error('the model of the search (path resolution by the OS, find_torrent_files) yields other items '
+                                f'than the walk of the real file system: model {mitems[:6]} … real {sitems[:6]} …', case)
+            continue
+        items = [contents[cid] if kind == 'torrent' else {'kind': kind} for _, kind, cid in sitems]
         sampled = any(i.get('fileMatch') for i in rep['items'])
         ctx.case(key=_key(sc, run['label']), nontrivial=sampled,
                  kind=sc['shape'].split(':')[0] + '/' + run['label'].split('@')[0])
         ctx.dist['result:' + json.dumps(run['res'], sort_keys=True)] += 1
+        ctx.dist['argkind:' + str(sc.get('argkind'))] += 1
         # model observables in the implementation's vocabulary
         m = rep['model']
-        mcalls = [[ipaths[c[0]], c[1], c[2], c[3], c[4]] for c in m['calls']]
-        rel = lambda p: p if p is None else p.split('/search/', 1)[-1]  # noqa: E731
+        rel = lambda p: p if p is None else p.split('/s/', 1)[-1]  # noqa: E731
         mafter = {'pl': m['after']['pl'], 'pieces': m['after']['pieces'], 'name': m['after']['name'],
                   'files': [[p, s] for p, s in m['after']['files']]}
         before, after = run['before'], run['after']
         impl = {'res': run['res'], 'calls': run['calls'],
                 'after': {k: after[k] for k in ('pl', 'pieces', 'files', 'name')}}
-        model = {'res': m['res'], 'calls': mcalls, 'after': mafter}
-        bad = check_spec(before, run['res'], after, rep, items, run['stops'], 'reuse()')
+        model = {'res': m['res'], 'calls': m['calls'], 'after': mafter}
+        bad = check_spec(before, run['res'], after, rep, items, run['stops'], 'reuse()', run['calls'], sitems)
         if bad is None and run['res'] == {'ok': True}:
             if run.get('validate') != 'ok':
                 bad = f'reuse() accepted a candidate but validate() then raises {run.get("validate")}'
@@ -584,24 +1033,23 @@ def evaluate(ctx, drv, scs):
                 if acc and run['verify'] is not True:
                     bad = f'reuse() accepted a faithful candidate but verify() gives {run["verify"]}'
                 ctx.dist['verify-after-accept:' + str(run['verify'])] += 1
-        if bad is None and 'raised' in run['res'] and run['stops'] is None and run['res']['raised'] in ('read', 'bdecode', 'metainfo'):
-            pass
         if bad is not None:
-            ctx.violation(bad, case, {'model': model, 'items': rep['items'], 'mustFind': rep['mustFind']}, impl,
-                          finding_matchers=MATCHERS)
+            ctx.violation(bad, case, {'model': model, 'search': sitems[:40], 'items': rep['items'][:40],
+                                      'mustFind': rep['mustFind']}, impl, finding_matchers=MATCHERS)
             continue
         if rep['hyp']:
             mbad = check_spec({k: before[k] for k in ('pl', 'pieces', 'files', 'name')}, m['res'], mafter, rep, items,
-                              run['stops'], 'model')
+                              run['stops'], 'model', m['calls'], sitems)
             if mbad is not None:
                 ctx.machinery_error('the model violates the specification under the hypothesis: ' + mbad, case)
                 continue
             if impl != model:
-                ctx.corr_break('c18.reuse', case, model, impl)
+                ctx.corr_break('c18.reusePaths', case, model, impl)
         else:
             ctx.dist['outside-hyp'] += 1
         if sampled and run['label'] == 'passive':
-            ctx.sample({'case': {'shape': sc['shape'], 'files': sc['files'], 'tfiles': [t['at'] for t in sc['tfiles']]},
+            ctx.sample({'case': {'shape': sc['shape'], 'files': sc['files'][:6], 'spell': sc.get('spell'), 'cwd': sc.get('cwd'),
+                                 'links': sc.get('links'), 'tfiles': [t['at'] for t in sc['tfiles']][:8]},
                         'res': run['res'], 'calls': [[rel(c[0])] + c[1:] for c in run['calls'][:4]]})
     for sc, obs in flat:
         if 'harness_exc' in obs:
@@ -611,14 +1059,20 @@ def evaluate(ctx, drv, scs):
 def run(ctx, drv):
     ctx.notes['rule'] = RULE
     ctx.notes['assumptions'] = [
-        'the searched paths are abstracted to the ordered item list find_torrent_files yields; the harness derives it with '
-        'its own directory walk (os.listdir order, *.torrent case-insensitive, files above MAX_TORRENT_FILE_SIZE skipped)',
+        'the world of the search is an inode table scanned from the real tree (lstat / readlink / listdir order of real '
+        'directories; the chain of directories from / to the scratch root has no links); the model resolves spellings as '
+        'path_resolution(7) says (links followed when met, `..` taken where the walk has arrived, at most 40 links, search '
+        'permission for every component but empty ones); every case checks the model\'s yield against the harness\'s own walk '
+        'of the real file system (os.path.isdir / listdir / stat / open with the spellings as given)',
+        'reported paths are compared with the harness\'s walk up to empty and `.` components (exactly with the model)',
+        'permissions: the call runs with effective uid 65534 on trees whose group and other bits agree; recursion depth stays '
+        'below Python\'s limit (model fuel 200); *.torrent is matched with ASCII case folding; names are ASCII',
         'local content enters as, per candidate geometry, hash | missing | size error per piece (computed by the harness '
         'with its own chunking and hashlib); SHA-1 is uninterpreted',
         'sorted(a) == sorted(b) on lists of (str, int) tuples is modelled as multiset equality',
         'interval is modelled as a boolean "elapsed" (0 => always, 1e9 => never); intermediate intervals depend on the clock',
         'layouts are well formed: non-empty files, pairwise distinct paths, non-empty components; the torrent was made from '
-        'its path (file entries carry only length and path)',
+        'its path (file entries carry only length and path; zero-length files on disk are not listed by torf)',
         'AssertionError from copy() (path component containing a separator) is undocumented; the property only demands that '
         'the metainfo is unchanged, which is what is checked',
     ]
